@@ -364,3 +364,75 @@ Proof.
   assert (Ea : a = 1) by (rewrite <- Ha, <- parent_anchor, E; reflexivity).
   subst a. reflexivity.
 Qed.
+
+(* ---- a segment is '..' (or '.') only when it is EXACTLY that text ----
+   Names that merely look like '..' / '.' -- decorated with blanks, TABs, NBSP or any other
+   code point before or after -- are ordinary names: pushed, never popped, and they come out of
+   get_paths unchanged on both the real and the virtual side. *)
+Definition name_seg (x : text) : Prop := seg_ok x /\ x <> dotdot.
+
+Lemma spec_step_name st x : name_seg x -> spec_step st x = x :: st.
+Proof.
+  intros [[Hne [Hd _]] Hdd]. unfold spec_step.
+  destruct (text_eqb x dotdot) eqn:E1; [apply text_eqb_eq in E1; contradiction|].
+  destruct (text_eqb x []) eqn:E2; [apply text_eqb_eq in E2; contradiction|].
+  destruct (text_eqb x dot) eqn:E3; [apply text_eqb_eq in E3; contradiction|]. reflexivity.
+Qed.
+
+Lemma spec_fold_names l : Forall name_seg l -> forall st, fold_left spec_step l st = rev l ++ st.
+Proof.
+  induction 1 as [|x l Hx Hl IH]; intro st; cbn [fold_left rev app]; [reflexivity|].
+  rewrite IH, (spec_step_name st x Hx), <- app_assoc. reflexivity.
+Qed.
+
+Lemma names_nosep l : Forall name_seg l -> Forall (nosep SLASH) l.
+Proof. intro H. eapply Forall_impl; [|exact H]. intros x [[_ [_ Hs]] _]. exact Hs. Qed.
+
+(* an absolute path made of names only: the names come out as they went in *)
+Theorem names_kept_abs cwdp l : Forall name_seg l -> l <> [] ->
+  normalize cwdp (SLASH :: join [SLASH] l) = l.
+Proof.
+  intros Hl Hne. unfold normalize. cbn [starts_slash]. rewrite Z.eqb_refl.
+  change (SLASH :: join [SLASH] l) with ([] ++ SLASH :: join [SLASH] l).
+  rewrite (split_on_app SLASH [] _ eq_refl), (split_on_join SLASH l (names_nosep l Hl) Hne).
+  cbn [fold_left]. change (spec_step [] []) with (@nil text).
+  rewrite (spec_fold_names l Hl), app_nil_r. apply rev_involutive.
+Qed.
+
+Lemma nosep_app c a b : nosep c a -> nosep c b -> nosep c (a ++ b).
+Proof. unfold nosep. intros Ha Hb. rewrite forallb_app, Ha, Hb. reflexivity. Qed.
+
+Lemma nosep_dotdot : nosep SLASH dotdot.
+Proof. reflexivity. Qed.
+
+(* '..' with anything (non-empty, without '/') before or after it is a name *)
+Lemma decorated_dotdot_name_r w : w <> [] -> nosep SLASH w -> name_seg (dotdot ++ w).
+Proof.
+  intros Hw Hs. destruct w as [|c w]; [congruence|].
+  repeat split; try (cbn; discriminate). apply nosep_app; [exact nosep_dotdot|exact Hs].
+Qed.
+
+Lemma decorated_dotdot_name_l w : w <> [] -> nosep SLASH w -> name_seg (w ++ dotdot).
+Proof.
+  intros Hw Hs. destruct w as [|c w]; [congruence|].
+  assert (Hlen : forall y : text, length ((c :: w) ++ dotdot) = length y -> (3 <= length y)%nat).
+  { intros y <-. rewrite app_length. cbn. lia. }
+  repeat split.
+  - cbn; discriminate.
+  - intro H. apply (f_equal (@length Z)) in H. apply Hlen in H. cbn in H. lia.
+  - apply nosep_app; [exact Hs|exact nosep_dotdot].
+  - intro H. apply (f_equal (@length Z)) in H. apply Hlen in H. cbn in H. lia.
+Qed.
+
+Theorem get_paths_names_kept base cwd l : abs_wf cwd -> Forall name_seg l -> l <> [] ->
+  get_paths base cwd (SLASH :: join [SLASH] l) = Some (mkp (anchor base) (parts base ++ l), mkp 1 l).
+Proof. intros Hc Hl Hne. rewrite (get_paths_spec base cwd _ Hc), (names_kept_abs _ l Hl Hne). reflexivity. Qed.
+
+(* the shape of the escape attempt: "<'..' + w>/<rest>" from the root *)
+Theorem decorated_dotdot_not_folded base cwd w l : abs_wf cwd -> w <> [] -> nosep SLASH w -> Forall name_seg l ->
+  get_paths base cwd (SLASH :: join [SLASH] ((dotdot ++ w) :: l))
+  = Some (mkp (anchor base) (parts base ++ (dotdot ++ w) :: l), mkp 1 ((dotdot ++ w) :: l)).
+Proof.
+  intros Hc Hw Hs Hl. apply get_paths_names_kept; [exact Hc| |discriminate].
+  constructor; [apply decorated_dotdot_name_r; assumption|exact Hl].
+Qed.
